@@ -55,6 +55,12 @@ def segment_edits(ref, typ, segs, with_last=True, with_dstar=True):
     if ref.alias:
         a0 = sorted(ref.alias)[0]
         out.append(("seg", n - 1, a0 + "," + segs[-1]))
+        # an alias at the end of a list, and lists of two aliases (both orders)
+        for a in sorted(ref.alias):
+            out.append(("seg", n - 1, segs[-1] + "," + a))
+            for b in sorted(ref.alias):
+                if a != b:
+                    out.append(("seg", n - 1, a + "," + b))
     if with_dstar:
         for i in range(1, n + 1):
             for j in range(i, n + 1):
@@ -99,6 +105,7 @@ def query_menu(ref, typ, segs):
     if ref.alias and leafs:
         lk = ref.leaf_keys.get(base) or leafs[0]
         out.append(f"{lk}={sorted(ref.alias)[-1]}")
+        out.append(f"{lk}=zz,{sorted(ref.alias)[-1]}")        # the alias last in a list of filter values
     res = []
     for q in out:
         if q not in res:
